@@ -914,6 +914,14 @@ def do_hist(case, R):
                            'Delay(time, %r): output %r at call %d, the interpolated history gives %r (the head sample was interpolated '
                            'from an earlier Newton iterate of the newest sample and is not refreshed)' % (case['delay'], v, j, want))
                     break
+            if kind == 'avgt' and ts[0] == 0 and not _reset_inside(ts):
+                want = _avgt_ref(ts[:j + 1], us[:j + 1], case['delay'])
+                if want is not None:
+                    R.count('avgt_outputs_checked_against_definition')
+                if want is not None and abs(v - want) > 1e-9 * (1 + abs(want)):
+                    R.fail('average-wrong-output', 'Average(time, %r): output %r at call %d, the mean of the input history over the '
+                           'window is %r' % (case['delay'], v, j, want))
+                    break
             if kind == 'avgs' and ts[0] == 0 and not _reset_inside(ts):
                 want = _avgs_ref(ts[:j + 1], us[:j + 1], case['delay'])
                 if want is not None and abs(v - want) > 1e-9 * (1 + abs(want)):
@@ -1032,6 +1040,25 @@ def _dtime_ref(ts, us, delay):
     if target <= 0:
         return init
     return float(np.interp(target, st, [p[1] for p in pts]))
+
+
+def _avgt_ref(ts, us, delay):
+    """Average(mode='time'): the mean of the piecewise-linear input history over the last `delay` seconds (over the
+    whole history while it is shorter than that), for strictly advancing call sequences only (repeated stamps and
+    rewinds are the subject of the recorded Delay(time) findings)"""
+    init, slots = _slots(ts, us)
+    pts = [[0.0, init]] + slots
+    st = [p[0] for p in pts]
+    if any(b <= a for a, b in zip(st, st[1:])) or any(b <= a for a, b in zip(ts, ts[1:]) if not (a == 0 and b == 0)):
+        return None
+    t1 = st[-1]
+    t0 = max(st[0], t1 - delay)
+    if t1 <= t0:
+        return None
+    vs = [p[1] for p in pts]
+    knots = [t0] + [x for x in st if t0 < x < t1] + [t1]
+    vals = [float(np.interp(x, st, vs)) for x in knots]
+    return 0.5 * sum((vb + va) * (b - a) for a, b, va, vb in zip(knots, knots[1:], vals, vals[1:])) / (t1 - t0)
 
 
 def _avgs_ref(ts, us, d):
